@@ -6,7 +6,7 @@ from ..refs import alarms as R6
 
 ID = "C15"
 RULE = ("all cells of a 7-point time lattice around the trigger: alarm ACKNOWLEDGED, component acknowledgement (DTSTAMP, or X-MOZ-LASTACK for Thunderbird "
-        "components) and snooze each absent or at one of 7 instants (8^3 = 512 orderings incl. equalities) x trigger kind {UTC, zoned, floating, date} x "
+        "components) and snooze each absent or at one of 7 instants (8^3 = 512 orderings incl. equalities) x trigger kind {UTC, zoned, floating, date, zoned inside the repeated hour at the end of daylight time} x "
         "local zone {unset, str, tzinfo} x Thunderbird/not x provider {zoneinfo, pytz}, exhaustively; every cell also checks a second, never acknowledged "
         "alarm, sub-list-ness of active, and monotonicity (each acknowledgement moved one lattice step later); plus seeded random instants; "
         "non-trivial = at least one acknowledgement present; distinct by construction")
@@ -15,7 +15,7 @@ ASSUMPTIONS = ["R6 decision table: active iff no ack, or snooze > ack, or effect
                "a date trigger is local midnight of that date"]
 SOFT_S = {"quick": 8, "thorough": 120}
 UTC = timezone.utc
-KINDS = ("utc", "zoned", "floating", "date")
+KINDS = ("utc", "zoned", "floating", "date", "zoned-fold")
 LOCAL = (None, "str", "tzinfo", "foreign-tzinfo")
 N = 7
 
@@ -70,12 +70,21 @@ def build(case):
         start = vals.attach(base, vals.tzinfo_for("UTC"))
     elif kind == "zoned":
         start = vals.attach(base, tzp.timezone("Europe/Berlin" if (salt + (a1 or 0)) % 2 == 0 else "America/Los_Angeles"))
+    elif kind == "zoned-fold":
+        # trigger and second alarm inside the hour that is repeated when daylight time ends (first pass, EDT): one lattice step (1 h) later is the
+        # same wall-clock time in the second pass - instants have to be compared, not wall clocks
+        ny = tzp.timezone("America/New_York")
+        naive = datetime(2024, 11, 3, 1, 25) + timedelta(minutes=(7 * salt) % 30)
+        start = ny.localize(naive, is_dst=True) if hasattr(ny, "localize") else naive.replace(tzinfo=ny, fold=0)
+        if salt:
+            unit = timedelta(minutes=1)
     elif kind == "floating":
         start = base
     else:
         start = base.date()
         trig_delta = timedelta(days=-1)
-    trigger = R6.add(start, trig_delta)
+    norm = (lambda d: d.tzinfo.normalize(d) if isinstance(d, datetime) and hasattr(d.tzinfo, "normalize") else d)   # pytz: elapsed-time arithmetic (S9)
+    trigger = R6.add(start, trig_delta, norm)
     # the instant of the trigger, for placing the lattice
     floating = R6.is_date(trigger) or trigger.tzinfo is None
     t_dt = datetime(trigger.year, trigger.month, trigger.day) if R6.is_date(trigger) else trigger
@@ -117,7 +126,7 @@ def build(case):
         alarms.set_local_timezone(local_arg)
     if not tb and s is not None:
         alarms.snooze_until(P(s))
-    t2 = R6.add(start, timedelta(minutes=30))
+    t2 = R6.add(start, timedelta(minutes=30), norm)
     t2_dt = datetime(t2.year, t2.month, t2.day) if R6.is_date(t2) else t2
     t2_aware = (vals.attach(t2_dt, local_tz) if local_tz is not None else None) if (t2_dt.tzinfo is None) else t2_dt
     exp = [
